@@ -136,6 +136,7 @@ type Explorer struct {
 	pathCovers  []string
 	known       map[string]*Term
 	httpReqs    []*value
+	httpRespHdr value // set by verifrt.HTTPResponseHeader: the Header of every stubbed response
 	httpDoErr   value // set by verifrt.HTTPDoError: what the stubbed Do answers instead of a havoc result
 	thrB        *thread
 	jsonVals    []value
@@ -633,6 +634,7 @@ func (e *Explorer) resetPath(p []int) {
 	e.known = map[string]*Term{}
 	e.httpReqs = nil
 	e.httpDoErr = nil
+	e.httpRespHdr = nil
 	e.jsonVals = nil
 	e.mutexIDs = nil
 	e.lockLog = nil
